@@ -10,7 +10,7 @@ use tracing::debug;
 
 use self::newline_style::apply_newline_style;
 use crate::comment::{CharClasses, FullCodeCharKind};
-use crate::config::{Config, FileName, Verbosity};
+use crate::config::{Config, EmitMode, FileName, Verbosity};
 use crate::formatting::generated::is_generated_file;
 use crate::modules::Module;
 use crate::parse::parser::{DirectoryOwnership, Parser, ParserError};
@@ -40,7 +40,7 @@ impl<'b, T: Write + 'b> Session<'b, T> {
             if self.config.disable_all_formatting() {
                 // When the input is from stdin, echo back the input.
                 return match input {
-                    Input::Text(ref buf) => echo_back_stdin(buf),
+                    Input::Text(ref buf) => echo_back_stdin(buf, &self.config),
                     _ => Ok(FormatReport::new()),
                 };
             }
@@ -91,7 +91,13 @@ fn should_skip_module<T: FormatHandler>(
     false
 }
 
-fn echo_back_stdin(input: &str) -> Result<FormatReport, ErrorKind> {
+fn echo_back_stdin(input: &str, config: &Config) -> Result<FormatReport, ErrorKind> {
+    // The echo stands for the (unchanged) formatted text, which only the stdout emitter prints.
+    // The emitters that report differences have nothing to report here, and the source text in
+    // the middle of their output would make it unreadable (`--emit json`, `--emit checkstyle`).
+    if config.emit_mode() != EmitMode::Stdout {
+        return Ok(FormatReport::new());
+    }
     if let Err(e) = io::stdout().write_all(input.as_bytes()) {
         return Err(From::from(e));
     }
@@ -153,7 +159,10 @@ fn format_project<T: FormatHandler>(
 
     for (path, module) in files {
         if input_is_stdin && contains_skip(module.attrs()) {
-            return echo_back_stdin(context.psess.snippet_provider(module.span).entire_snippet());
+            return echo_back_stdin(
+                context.psess.snippet_provider(module.span).entire_snippet(),
+                config,
+            );
         }
         should_emit_verbose(input_is_stdin, config, || println!("Formatting {}", path));
         context.format_file(path, &module, is_macro_def)?;
